@@ -38,7 +38,8 @@ LEVEL_TEXT = ("Directory creation is explored as a state machine on a real scrat
               "of starts, clock ticks and colliding pre-created directories/files, default and custom prefix) and under "
               "all interleavings of 2-3 concurrently starting threads; file writing is enumerated over every 1- and "
               "2-element save list of buckets x {fits, npy, jpg, ...} in exposure, sequential and parallel observation, "
-              "each reported file being read back and compared with the bucket of the run it is attributed to.")
+              "each reported file being read back and compared with the bucket of the run it is attributed to."
+              " The command-line entry pyxel.run(<YAML file>) is part of the file family: its returned table / output_filenames.csv must list exactly one existing, correctly attributed file per (bucket, format, run); the parallel observation's /output node is checked for attribution too.")
 LEVEL_NOTE = ("The wall clock is replaced by a fake `datetime` in pyxel.outputs.outputs; scheduling points are os.mkdir "
               "and the clock read; real time, other processes and file-system crashes are outside. Lossy formats (jpg, "
               "png) are only checked for existence; formats the running mode refuses loudly are recorded as unsupported.")
